@@ -301,7 +301,8 @@ def splice_ueb(forged_body, genuine_body):
     return forged_body[:v1["uri_extension"]] + ln.to_bytes(fs1, "big") + ueb
 
 
-def run_forgeries(ctx, rt, grid, g, c, cap, si, raw, data, size, k, n, other_by_shnum, fidx, seed, n_forge, lines, impl, lcases):
+def run_forgeries(ctx, rt, grid, g, c, cap, si, raw, data, size, k, n, other_by_shnum, fidx, seed, n_forge, lines, impl, lcases,
+                  fixed=None):
     """consistent-forgery family: internally consistent shares of other content (every tree the adversary can
     recompute is recomputed) with the genuine or a forged UEB, on m = 1..N servers, g = 0..k-1 genuine shares
     left, several delivery orders, re-reads on the same node"""
@@ -312,19 +313,25 @@ def run_forgeries(ctx, rt, grid, g, c, cap, si, raw, data, size, k, n, other_by_
     u = uri.from_string(cap)
     mode = hashtree_mode()
     genuine = {t: read_body_raw(raw[t]) for t in keys}
-    for fi in range(n_forge):
+    for fi in range(len(fixed) if fixed is not None else n_forge):
         # full restore
         for t in g.share_files(si):
             os.unlink(t[2])
-        variant = rng.choice(["genuine-ueb", "genuine-ueb", "genuine-ueb", "forged-ueb"])
-        placement = rng.choice(["own", "own", "same"])
-        m = rng.choice([1, 2, 3, min(n, k + 2), n, rng.randrange(1, n + 1)])
-        m = max(1, min(m, n))
-        gcount = rng.randrange(0, k) if k > 1 else 0
-        order = list(range(len(keys)))
-        rng.shuffle(order)
-        forged_srv = order[:m]
-        genuine_srv = order[m:m + gcount]
+        fx = fixed[fi] if fixed is not None else None
+        if fx is not None:
+            variant, placement = fx["variant"], fx["placement"]
+            forged_srv, genuine_srv = list(fx["forged_servers"]), list(fx["genuine_servers"])
+            m, gcount = len(forged_srv), len(genuine_srv)
+        else:
+            variant = rng.choice(["genuine-ueb", "genuine-ueb", "genuine-ueb", "forged-ueb"])
+            placement = rng.choice(["own", "own", "same"])
+            m = rng.choice([1, 2, 3, min(n, k + 2), n, rng.randrange(1, n + 1)])
+            m = max(1, min(m, n))
+            gcount = rng.randrange(0, k) if k > 1 else 0
+            order = list(range(len(keys)))
+            rng.shuffle(order)
+            forged_srv = order[:m]
+            genuine_srv = order[m:m + gcount]
         same_sh = keys[forged_srv[0]][1]
         offered = []
         for idx in forged_srv:
@@ -346,13 +353,14 @@ def run_forgeries(ctx, rt, grid, g, c, cap, si, raw, data, size, k, n, other_by_
             os.makedirs(os.path.dirname(t[2]), exist_ok=True)
             with open(t[2], "wb") as f:
                 f.write(raw[t])
-        rt.policy = rng.choice(["random", "random", "fifo", "lifo"])
-        rt.rng.seed("c02-forgery-order-%s-%s-%s" % (fidx, seed, fi))
-        case = {"kind": "forgery", "file": fidx, "seed": seed, "fi": fi, "variant": variant, "placement": placement,
+        rt.policy = fx["policy"] if fx is not None else rng.choice(["random", "random", "fifo", "lifo"])
+        rt.rng.seed("c02-forgery-order-%s-%s-%s" % (fidx, seed, fx["order"] if fx is not None else fi))
+        case = {"kind": "forgery-corpus" if fx is not None else "forgery", "file": fidx, "seed": seed, "fi": fi,
+                "variant": variant, "placement": placement,
                 "forged_servers": sorted(forged_srv), "genuine_servers": sorted(genuine_srv), "policy": rt.policy,
                 "mclass": "forgery:%s:%s" % (variant, placement)}
         node = fresh_node(c, cap)
-        rdc = rng.random()
+        rdc = rng.random() if fx is None else 0.0
         if rdc < 0.7:
             off, rsize = 0, None
         else:
@@ -386,7 +394,8 @@ def read_body_raw(rawbytes):
     return rawbytes[12:len(rawbytes) - 72 * nleases]
 
 
-def run_campaign(ctx, fidx, n_mut, seed, n_forge=0, flines=None, fimpl=None, fcases=None):
+def run_campaign(ctx, fidx, n_mut, seed, n_forge=0, flines=None, fimpl=None, fcases=None, fixed_forgeries=None,
+                 fixed_muts=None):
     import grid
     import random
     from allmydata.immutable import upload
@@ -495,9 +504,24 @@ def run_campaign(ctx, fidx, n_mut, seed, n_forge=0, flines=None, fimpl=None, fca
                     ctx.count("flaky-server")
             for w in g.wrappers.values():
                 w.fault = None
-            if n_forge:
+            for fm in (fixed_muts or []):
+                # a fixed mutation of fixed targets, whole-file read on a fresh node
+                restore(g, si, snap)
+                for ti in fm["targets"]:
+                    t = keys[ti]
+                    write_body(t[2], apply_mutation(fm["mutation"], snap[t], {"share": [snap[t2] for t2 in keys if t2[1] != t[1]],
+                                                                               "file": others["file"], "encoding": others["encoding"]}))
+                case = {"kind": "mutation-corpus", "file": fidx, "seed": seed, "mutation": fm["mutation"], "targets": fm["targets"],
+                        "mclass": mut_class(fm["mutation"]), "off": 0, "size": None}
+                got, end = do_read(rt, grid, fresh_node(c, cap), 0, None)
+                check_read(ctx, case, data, 0, None, got, end)
+                ctx.case(("mutation-corpus", fidx, repr(fm)))
+                ctx.count("corpus:mutation")
+            if n_forge or fixed_forgeries:
+                if fixed_forgeries:
+                    restore(g, si, snap)
                 run_forgeries(ctx, rt, grid, g, c, cap, si, raw, data, size, k, n, other_by_shnum, fidx, seed, n_forge,
-                              flines, fimpl, fcases)
+                              flines, fimpl, fcases, fixed=fixed_forgeries)
         finally:
             for w in g.wrappers.values():
                 w.fault = None
@@ -788,6 +812,49 @@ def run_offsets(ctx):
     ctx.compare("Share._satisfy_offsets on crafted version/offset tables", cases, impl, ctx.model(lines))
 
 
+def compare_forgery_lines(ctx, flines, fimpl, fcases):
+    outs = ctx.model(flines)
+    if outs is not None:
+        norm = []
+        for o in outs:
+            pr = dict(x.split("=", 1) for x in o.split(" ") if "=" in x)
+            norm.append("len=%s end=%s" % (pr.get("len"), "done" if pr.get("end") == "done" else "fail") if pr else o)
+        ctx.compare("whole download of a k=1 file offered only consistently forged shares (m copies): bytes delivered and "
+                    "done/failed, real downloader vs the Lean chain on the same share sequence", fcases, fimpl, norm)
+
+
+CORPUS_SEED = 20260922
+
+
+def run_corpus(ctx, flines, fimpl, fcases):
+    """FIXED CORPUS (independent of VERIF_SEED): one minimal scenario per known mechanism — the defect repaired in
+    /repo (ea42624) and the seeded changes C02-a, C02-b, C02-c"""
+    orders = [("fifo", 0), ("lifo", 0)] + [("random", i) for i in range(6)]
+    # fix ea42624: a share truncated inside its header must not stall the read (k other good shares exist / none exist)
+    run_campaign(ctx, 2, 0, CORPUS_SEED, fixed_muts=[
+        {"mutation": {"kind": "truncate", "at": 24}, "targets": [0]},
+        {"mutation": {"kind": "truncate", "at": 0}, "targets": [0, 1, 2, 3]},
+        {"mutation": {"kind": "truncate", "at": 3}, "targets": [1]}])
+    # C02-a: a self-consistent share set of ANOTHER file (own UEB) on >= k+2 servers, under several delivery orders
+    run_campaign(ctx, 2, 0, CORPUS_SEED, 0, flines, fimpl, fcases, fixed_forgeries=[
+        {"variant": "forged-ueb", "placement": "own", "forged_servers": [0, 1, 2, 3], "genuine_servers": [], "policy": p, "order": o}
+        for (p, o) in orders])
+    run_campaign(ctx, 3, 0, CORPUS_SEED, 0, flines, fimpl, fcases, fixed_forgeries=[
+        {"variant": "forged-ueb", "placement": "own", "forged_servers": [0, 1, 2, 3, 4], "genuine_servers": [], "policy": p, "order": o}
+        for (p, o) in orders])
+    # C02-b: the same coherent forgery carrying the GENUINE UEB offered >= 3 times to one download node
+    run_campaign(ctx, 1, 0, CORPUS_SEED, 0, flines, fimpl, fcases, fixed_forgeries=[
+        {"variant": "genuine-ueb", "placement": pl, "forged_servers": [0, 1, 2], "genuine_servers": [], "policy": p, "order": 0}
+        for pl in ("own", "same") for p in ("fifo", "lifo", "random")])
+    run_campaign(ctx, 9, 0, CORPUS_SEED, 0, flines, fimpl, fcases, fixed_forgeries=[
+        {"variant": "genuine-ueb", "placement": "same", "forged_servers": [0, 1, 2, 3, 4], "genuine_servers": [], "policy": "fifo",
+         "order": 0}])
+    # C02-c: ranged FIRST read with a guess smaller than the real segment size, guessed segnum > real one but < segment count
+    run_badguess_case(ctx, (700, 3, 5, 128, 40), [(130, 7), (260, 40), (131, None), (300, 1)], CORPUS_SEED, [None])
+    run_badguess_case(ctx, (333, 1, 2, 100, 40), [(45, 3), (120, 30)], CORPUS_SEED, [None])
+    ctx.count("corpus-run")
+
+
 def run(ctx):
     import common
     common.setup_impl_path()
@@ -798,6 +865,9 @@ def run(ctx):
         cs = ctx.replay["case"]
         if cs.get("kind") == "k1":
             run_k1(ctx, cs["file"], cs["mi"] + 1, cs["seed"])
+        elif str(cs.get("kind", "")).endswith("-corpus"):
+            run_corpus(ctx, flines, fimpl, fcases)
+            compare_forgery_lines(ctx, flines, fimpl, fcases)
         elif cs.get("kind") == "forgery":
             run_campaign(ctx, cs["file"], 0, cs["seed"], cs["fi"] + 1, flines, fimpl, fcases)
         elif cs.get("kind") == "badguess":
@@ -807,6 +877,10 @@ def run(ctx):
         elif "file" in cs:
             run_campaign(ctx, cs["file"], cs.get("mi", 0) + 1, cs["seed"])
         return
+    run_corpus(ctx, flines, fimpl, fcases)
+    if os.environ.get("VERIF_CORPUS_ONLY"):
+        compare_forgery_lines(ctx, flines, fimpl, fcases)
+        return
     run_offsets(ctx)
     run_gotseg(ctx)
     run_badguess(ctx)
@@ -814,13 +888,6 @@ def run(ctx):
     per = ctx.budget(60, 220)
     for i in range(nfiles):
         run_campaign(ctx, i, per, ctx.rng.randrange(1 << 30), ctx.budget(40, 150), flines, fimpl, fcases)
-    outs = ctx.model(flines)
-    if outs is not None:
-        norm = []
-        for o in outs:
-            pr = dict(x.split("=", 1) for x in o.split(" ") if "=" in x)
-            norm.append("len=%s end=%s" % (pr.get("len"), "done" if pr.get("end") == "done" else "fail") if pr else o)
-        ctx.compare("whole download of a k=1 file offered only consistently forged shares (m copies): bytes delivered and "
-                    "done/failed, real downloader vs the Lean chain on the same share sequence", fcases, fimpl, norm)
+    compare_forgery_lines(ctx, flines, fimpl, fcases)
     for i in range(ctx.budget(6, 30)):
         run_k1(ctx, i, ctx.budget(60, 200), ctx.rng.randrange(1 << 30))
